@@ -84,16 +84,26 @@ def run(ck, F):
     for t in declared:
         ck.check(RT, t, t in tables, f'table type_factory::{t} is never the target of an analysed insert', loc=rec['loc'])
     # who may touch the tables
-    RW = ck.rule('C01.table-owners', 'the ordered tables of type_factory are referenced only from its get_* '
-                 'members (nothing else inserts or alters elements)', floor=15)
+    RW = ck.rule('C01.table-owners', 'the ordered tables of type_factory are referenced only from its get_* members and from '
+                 'member functions those call (helpers evaluated inside them): nothing else inserts or alters elements', floor=15)
     users = {}
     from facts import walk
     for g in F.fn.values():
         for n in walk(g.get('body')):
             if n.get('k') == 'member' and n.get('cls') == TF and n.get('name') in declared:
                 users.setdefault(n['name'], set()).add(g['id'])
+    # member functions reachable from an analysed get_* through calls inside the class
+    reach = {f['id'] for f in getters}
+    todo = list(reach)
+    while todo:
+        g = F.fn.get(todo.pop())
+        for n in walk((g or {}).get('body')):
+            c = n.get('callee') if n.get('k') == 'call' else None
+            if c and c.get('parent') == TF and c['id'] not in reach:
+                reach.add(c['id'])
+                todo.append(c['id'])
     for t in declared:
-        outsiders = [u for u in users.get(t, ()) if not (F.fn[u].get('parent') == TF and F.fn[u]['name'].startswith('get_'))]
+        outsiders = [u for u in users.get(t, ()) if u not in reach]
         ck.check(RW, t, not outsiders, f'table {t} is also touched by {outsiders}', loc=rec['loc'])
 
     # ------------------------------------------------------------ collapsing of the natural transfer
